@@ -31,7 +31,7 @@ func init() {
 		Workers:     4,
 		Race:        true,
 		CaseTimeout: 200e9,
-		Rule: "real parallel executions under the Go race detector: 2-8 goroutines issue operations and transactions - a quarter of which are aborted by their own body after doing all their calls - (values tagged goroutine x counter; documents: also through child handles kept from inside a transaction body (single calls and two-step patches); lists: also range deletes at the tail of the list as it is at the moment of the call, which another goroutine may shorten before the call holds the datatype - refused is fine, a panic is not) on ONE datatype of each type while a background goroutine syncs it with the real service and, in half of the rounds, a second client's operations arrive; yields / sleeps are injected at the BeginTransaction / unlock hook points with seeded probabilities; a pack observer builds push packs in a tight loop meanwhile. Monitors: every pack the observer or a sync builds holds whole transaction units only; conservation (counter = sum of the deltas of calls that returned success, plus the remote deltas; for the other types the final state equals the replay of the stored log, which holds exactly one operation per successful call); exactly-once and identifier order (the client's stored operations carry seq 1..n without gap or repeat and strictly increasing clocks); transaction contiguity (each TRANSACTION header is followed by exactly NumOfOps-1 operations, all carrying tags of the issuing goroutine); isolation inside a transaction body (a counter read-modify-read sequence sees only its own writes; the second client's recognisable units - {+D,-D} pairs on a counter, six keys written to one value on a map / document - are never seen half-applied by reads inside a local transaction); linearizability of return values in rounds without a second client (porcupine: counter IncreaseBy -> new value; map Put/Remove -> previous value, per key); a transaction that fails after staying open while a pending call of the same application was pushed and acknowledged leaves nothing behind (rounds without a second client); no deadlock / panic (watchdog, worker crash); race-detector reports attributed to orda code, keyed by the unordered pair of innermost orda functions; " +
+		Rule: "real parallel executions under the Go race detector: 2-8 goroutines issue operations and transactions - a quarter of which are aborted by their own body after doing all their calls - (values tagged goroutine x counter; documents: also through child handles kept from inside a transaction body (single calls and two-step patches; inserts, deletes and two-value updates at the tail of an array through a kept handle of it); lists: also range deletes at the tail of the list as it is at the moment of the call, which another goroutine may shorten before the call holds the datatype - refused is fine, a panic is not) on ONE datatype of each type while a background goroutine syncs it with the real service and, in half of the rounds, a second client's operations arrive; yields / sleeps are injected at the BeginTransaction / unlock hook points with seeded probabilities; a pack observer builds push packs in a tight loop meanwhile. Monitors: every pack the observer or a sync builds holds whole transaction units only; conservation (counter = sum of the deltas of calls that returned success, plus the remote deltas; for the other types the final state equals the replay of the stored log, which holds exactly one operation per successful call); exactly-once and identifier order (the client's stored operations carry seq 1..n without gap or repeat and strictly increasing clocks); transaction contiguity (each TRANSACTION header is followed by exactly NumOfOps-1 operations, all carrying tags of the issuing goroutine); isolation inside a transaction body (a counter read-modify-read sequence sees only its own writes; the second client's recognisable units - {+D,-D} pairs on a counter, six keys written to one value on a map / document - are never seen half-applied by reads inside a local transaction); linearizability of return values in rounds without a second client (porcupine: counter IncreaseBy -> new value; map Put/Remove -> previous value, per key); a transaction that fails after staying open while a pending call of the same application was pushed and acknowledged leaves nothing behind (rounds without a second client); no deadlock / panic (watchdog, worker crash); race-detector reports attributed to orda code, keyed by the unordered pair of innermost orda functions; " +
 			"non-trivial = >= 3 goroutines completed >= 5 calls each while >= 1 background sync applied a response; distinct = hash of the emitted (goroutine-tag) sequence, i.e. the interleaving actually observed",
 		Assumptions: []string{
 			"the application goroutines use the public mutators and transactions; getters are called only inside transaction bodies or after the goroutines have joined",
@@ -133,11 +133,16 @@ func runC20(c *core.Case) *core.Result {
 	w.cls = append(w.cls, cl)
 	d := cl.Open(key, typ, bed.Create)
 	cl.Register()
+	var arrSizeHint atomic.Int64 // documents: a rough size of the array "arr" (not read from the datatype)
 	setupOps := int64(0)
 	if doc, ok := d.DT.(orda.Document); ok {
 		// an object child for the handles that goroutines keep from inside their transactions
 		if _, e := doc.PutToObject("box", map[string]interface{}{"init": "x"}); e == nil {
 			setupOps = 1
+			if _, e := doc.PutToObject("arr", []interface{}{"a0", "a1", "a2"}); e == nil {
+				setupOps = 2
+				arrSizeHint.Store(3)
+			}
 		}
 	}
 	if _, sig, msg := w.sync(cl); sig != "" {
@@ -160,11 +165,12 @@ func runC20(c *core.Case) *core.Result {
 	var hmu sync.Mutex
 	var hist []porcupine.Operation
 	var clock int64
-	var okCalls, txCommitted, txOps, txAborted, keptHandleCalls, rangeDeletes int64
+	var okCalls, txCommitted, txOps, txAborted, keptHandleCalls, rangeDeletes, arrayCalls int64
 	defer func() {
 		c.Count("transactions_aborted_by_their_body", atomic.LoadInt64(&txAborted))
 		c.Count("calls_through_a_child_handle_kept_from_a_transaction", atomic.LoadInt64(&keptHandleCalls))
 		c.Count("accepted_tail_range_deletes", atomic.LoadInt64(&rangeDeletes))
+		c.Count("accepted_array_calls_through_a_kept_handle", atomic.LoadInt64(&arrayCalls))
 	}()
 	var sumDeltas int64
 	var violation atomic.Value
@@ -185,7 +191,8 @@ func runC20(c *core.Case) *core.Result {
 			}()
 			rr := newRand(seedJ + int64(gi)*7919)
 			tag := func(n int) string { return fmt.Sprintf("g%d-%d", gi, n) }
-			var kept orda.Document // documents: a child handle obtained inside a transaction body
+			var kept orda.Document    // documents: a child handle obtained inside a transaction body
+			var keptArr orda.Document // documents: the handle of the array "arr", obtained the same way
 			for n := 0; n < calls; n++ {
 				if violation.Load() != nil {
 					return
@@ -374,6 +381,9 @@ func runC20(c *core.Case) *core.Result {
 							if h, e := tx.GetFromObject("box"); e == nil && h != nil {
 								kept = h
 							}
+							if h, e := tx.GetFromObject("arr"); e == nil && h != nil && h.GetTypeOfJSON() == orda.TypeJSONArray {
+								keptArr = h
+							}
 							if abort {
 								if rr.Intn(2) == 0 {
 									time.Sleep(time.Duration(300+rr.Intn(500)) * time.Microsecond) // long enough for a sync answer to arrive while the body is open
@@ -388,6 +398,33 @@ func runC20(c *core.Case) *core.Result {
 						} else if abort {
 							atomic.AddInt64(&txAborted, 1)
 						}
+						continue
+					}
+					if keptArr != nil && rr.Intn(4) == 0 {
+						// array calls through the kept handle, aimed at a size other goroutines and
+						// remote operations change meanwhile: a refused call is fine, and it must
+						// leave nothing behind (the final state is the replay of the stored log)
+						sz := arrSizeHint.Load()
+						switch {
+						case sz >= 2 && rr.Intn(3) == 0:
+							if _, e := keptArr.UpdateManyInArray(int(sz)-2, tag(n), tag(n)+"u"); e == nil {
+								atomic.AddInt64(&okCalls, 1)
+								atomic.AddInt64(&arrayCalls, 1)
+							}
+						case sz >= 1 && rr.Intn(2) == 0:
+							if _, e := keptArr.DeleteInArray(rr.Intn(int(sz))); e == nil {
+								atomic.AddInt64(&okCalls, 1)
+								atomic.AddInt64(&arrayCalls, 1)
+								arrSizeHint.Add(-1)
+							}
+						default:
+							if _, e := keptArr.InsertToArray(0, tag(n)); e == nil {
+								atomic.AddInt64(&okCalls, 1)
+								atomic.AddInt64(&arrayCalls, 1)
+								arrSizeHint.Add(1)
+							}
+						}
+						atomic.AddInt64(&completed[gi], 1)
 						continue
 					}
 					if kept != nil && rr.Intn(3) == 0 {
